@@ -5,7 +5,10 @@ constructors + assignments, encoders, validator, datatype factory) gives identic
 every combination of default version x default level x default delimiter set; elements built
 before a change of defaults are unaffected.  Correspondence: the Coq model (which forwards explicit
 arguments by construction: Model/Config.v, Properties/C17.v) is compared with hl7apy running under
-a non-default configuration.
+a non-default configuration.  Message level (Model/ConfigMsg.v, Properties/C17.v second half): parse_message
+on generated texts with / without / with unsupported MSH-12, own delimiter sets, level given or omitted, and
+datatype_factory with omitted version / level, are observed under three hostile configurations and
+compared with the model's api wrappers evaluated with the same configuration (message_defaults_correspondence).
 """
 import os
 import sys
@@ -155,6 +158,218 @@ def apply_config(cfg):
     hl7apy.set_default_encoding_chars(dict(EC_SETS[de]))
 
 
+# ==========================================================================================
+# BEGIN message-level correspondence (Model/ConfigMsg.v api_parse_message / obs_parse_message)
+# parse_message on generated messages (with and without MSH-12, unsupported MSH-12, own delimiter sets,
+# truncation character from v2.7, level given or omitted, both group modes) is run in hl7apy under three
+# hostile default configurations; the model's api wrapper is evaluated with the same configuration as
+# an explicit `cfg` and the observations (outcome, version of the tables used, tree shape, to_er7 text)
+# are compared inside Coq.  This is what ties Properties/C17.v's message-level theorems to the code.
+
+MSG_CONFIGS = [('2.2', S.STRICT, 2), ('2.8.1', S.TOLERANT, 1), ('2.6', S.STRICT, 1)]
+
+C17M_PRELUDE = """From Coq Require Import List NArith ZArith Init.Byte.
+From HL7 Require Import Lib.Str Model.Ec Model.Result Model.Ref Model.Tree Model.MsgTree Model.Config Model.ConfigMsg Gen.Params.
+Import ListNotations. Open Scope bs_scope.
+Definition cfgs : list cfg := [%(cfgs)s].
+Definition case := (nat * nat * bool * str * (nat * nat * str * str * str))%%type.
+Definition run1 (c : case) : bool :=
+  match c with (ci, l, fg, text, (code, ecode, ver, d, enc)) =>
+    match nth_error cfgs ci with
+    | None => false
+    | Some cf =>
+        let lvl := match l with 1%%nat => Some STRICT | 2%%nat => Some TOLERANT | _ => None end in
+        match obs_parse_message cf text lvl fg with
+        | (code', ecode', ver', d', enc') =>
+            Nat.eqb code code' && Nat.eqb ecode ecode' && streqb ver ver' && streqb d d' && streqb enc enc'
+        end
+    end
+  end.
+Fixpoint failing (n : nat) (l : list case) : list nat :=
+  match l with [] => [] | c :: r => (if run1 c then [] else [n]) ++ failing (S n) r end.
+(* datatype_factory(datatype, value, version, validation_level) with omitted arguments *)
+Definition fcase := (nat * str * str * option str * nat * (nat * bool * str))%%type.
+Definition runf (c : fcase) : bool :=
+  match c with (ci, dt, val, v, l, (code, fb, text)) =>
+    match nth_error cfgs ci with
+    | None => false
+    | Some cf =>
+        let lvl := match l with 1%%nat => Some STRICT | 2%%nat => Some TOLERANT | _ => None end in
+        match api_datatype_factory cf dt %(ec0)s val v lvl with
+        | Ok (fb', t') => Nat.eqb code 0 && Bool.eqb fb fb' && streqb text t'
+        | Err x => Nat.eqb code (exn_code x)
+        end
+    end
+  end.
+Fixpoint ffailing (n : nat) (l : list fcase) : list nat :=
+  match l with [] => [] | c :: r => (if runf c then [] else [n]) ++ ffailing (S n) r end.
+"""
+
+FACTORY_VALUES = [('DT', '20200101'), ('DT', '2020'), ('DT', 'nope'), ('NM', '12.5'), ('NM', '-3'), ('NM', 'abc'),
+                  ('SI', '12'), ('SI', 'x1'), ('TM', '1200'), ('TM', '9999'), ('DTM', '202001011200'), ('XX', 'v'),
+                  ('NM', 'a|b')]
+
+
+def observe_factory(dt, val, v, lvl):
+    try:
+        o = datatype_factory(dt, val, v, lvl)
+    except Exception as ex:  # noqa
+        return (S.outcome_code(ex), False, '')
+    used_v = v if v is not None else hl7apy.get_default_version()
+    cls = hl7apy.load_library(used_v).get_base_datatypes().get(dt)
+    return (0, not (cls is not None and isinstance(o, cls)), o.to_er7(EC_SETS[0]))
+
+
+def message_texts(rng, thorough):
+    """(description, text) pairs; '|'-delimited lines are rewritten with the delimiter set of the message"""
+    import c08
+    versions = S.VERSIONS if thorough else ['2.2', '2.3.1', '2.5', '2.7', '2.8.2']
+    safe_lines = ['PID|1', 'PV1|1', 'OBX|1', 'ZZZ|1', 'ZAB', 'PID', 'EVN', 'NK1|1', 'pid|1', 'XXX']
+    out = []
+    per_version = 8 if not thorough else 14
+    for v in versions:
+        lib = hl7apy.load_library(v)
+        ms = [m for m in ('ADT_A01', 'ORU_R01', 'ACK', 'ADT_A08', 'ORM_O01', 'ADT_A17') if m in lib.MESSAGES]
+        for k in range(per_version):
+            mname = rng.choice(ms) if rng.random() < .8 else rng.choice(['ZAB_Z01', 'XXX_Y01', 'adt_a01'])
+            ref = lib.MESSAGES.get(mname.upper())
+            header = rng.choice(['own', 'own', 'own', 'own-comp', 'none', 'none', 'unsupported', 'blank'])
+            if header in ('none', 'blank', 'unsupported') or ref is None:
+                names = [rng.choice(safe_lines) for _ in range(rng.randint(0, 4))]
+                lines = list(names)
+            else:
+                base = [n for n in c08.places(ref) if n != 'MSH' and S.ok_segment(lib, n)] or ['PID']
+                lines = [c08.simple_line(rng, lib, rng.choice(base)) if rng.random() < .8 else rng.choice(safe_lines)
+                         for _ in range(rng.randint(0, 5))]
+            ecs = dict(rng.choice(EC_SETS))
+            trunc = None
+            if v >= '2.7' and header in ('own', 'own-comp') and rng.random() < .4:
+                trunc = '+'
+            f, c = ecs['FIELD'], ecs['COMPONENT']
+            msh2 = c + ecs['REPETITION'] + ecs['ESCAPE'] + ecs['SUBCOMPONENT'] + (trunc or '')
+            p = mname.split('_')
+            mt = c.join([p[0], p[1] if len(p) > 1 else ''] + ([mname] if (v >= '2.3.1' or rng.random() < .5) else []))
+            fields = ['MSH', msh2, 'A', 'B', 'C', 'D', '20200101', '', mt, '1', 'P']
+            if header == 'own':
+                fields.append(v)
+            elif header == 'own-comp':
+                fields.append(' ' + v + c + 'USA' + c + 'x ')
+            elif header == 'unsupported':
+                fields.append(rng.choice(['9.9', '2', '2.5x', 'v' + v]))
+            elif header == 'blank':
+                fields.append('')
+            text = '\r'.join([f.join(fields)] + [ln.replace('|', f) for ln in lines])
+            text += rng.choice(['', '\r'])
+            if rng.random() < .1:
+                text = rng.choice([' ', '\n', '\r\n ']) + text
+            out.append(((v, mname, header, trunc is not None), text))
+    return out
+
+
+def observe_message(text, lvl, fg):
+    import c08
+    try:
+        m = parse_message(text, validation_level=lvl, find_groups=fg)
+    except Exception as ex:  # noqa
+        return (S.outcome_code(ex), 0, '', '', '')
+    try:
+        enc, ecode = m.to_er7(), 0
+    except Exception as ex:  # noqa
+        enc, ecode = '', S.outcome_code(ex)
+    return (0, ecode, m.version, c08.dump_message(m), enc)
+
+
+def message_defaults_correspondence(run):
+    """returns (#cases evaluated by the model, #oracle evaluations); restores nothing: caller holds the saved defaults"""
+    from common import coq_eval_many, parse_nat_lists, shard
+    from coqgen import coq_str, coq_opt
+    texts = message_texts(run.rng, run.thorough)
+    cases = []
+    oracle_evals = 0
+    for desc, text in texts:
+        variants = [(None, True), (S.TOLERANT, True), (S.STRICT, False)]
+        if run.thorough:
+            variants += [(None, False), (S.TOLERANT, False), (S.STRICT, True)]
+        for lvl, fg in variants:
+            obs = []
+            for ci, cfg in enumerate(MSG_CONFIGS):
+                apply_config(cfg)
+                o = observe_message(text, lvl, fg)
+                obs.append(o)
+                cases.append({'ci': ci, 'lvl': lvl, 'fg': fg, 'text': text, 'obs': o, 'desc': desc})
+            oracle_evals += len(obs)
+            # oracle (the property itself): level explicit + a supported version stated by the header => one result
+            if lvl is not None and desc[2] in ('own', 'own-comp') and len(set(obs)) != 1:
+                run.fail('result-depends-on-defaults', 'parse_message of a text that states its version, with an explicit '
+                         'level, gives different results under different process-wide defaults',
+                         call=['parse_message', text[:300], lvl, fg], configs=[list(c) for c in MSG_CONFIGS],
+                         got=[str(o)[:300] for o in obs], function='parse_message')
+    cfg_terms = '; '.join('mk_cfg %s %s %s default_ec_27' % (coq_str(dv), 'STRICT' if dl == S.STRICT else 'TOLERANT',
+                                                              S.ec_term(EC_SETS[de])) for dv, dl, de in MSG_CONFIGS)
+    files, index = [], []
+    nfiles = max(1, min(12, (len(cases) + 29) // 30))
+    for k, sh in enumerate([cases[i::nfiles] for i in range(nfiles)]):   # interleaved: heavy structures spread evenly
+        L = [C17M_PRELUDE % {'cfgs': cfg_terms, 'ec0': S.ec_term(EC_SETS[0])}, 'Definition cases : list case := [']
+        L.append(';\n'.join('(%d%%nat, %d%%nat, %s, %s, (%d%%nat, %d%%nat, %s, %s, %s))' % (
+            c['ci'], c['lvl'] or 0, 'true' if c['fg'] else 'false', coq_str(c['text']), c['obs'][0], c['obs'][1],
+            coq_str(c['obs'][2]), coq_str(c['obs'][3]), coq_str(c['obs'][4])) for c in sh))
+        L.append('].')
+        L.append('Eval vm_compute in failing 0 cases.')
+        files.append(('c17m_%d_%d' % (os.getpid(), k), '\n'.join(L) + '\n'))
+        index.append(sh)
+    fcases = []
+    for dt, val in FACTORY_VALUES:
+        for v in (None, '2.3', '2.5', '2.7'):
+            for lvl in (None, S.STRICT, S.TOLERANT):
+                if v is not None and lvl is not None and not run.thorough:
+                    continue        # both explicit: covered by the oracle corpus above
+                for ci, cfg in enumerate(MSG_CONFIGS):
+                    apply_config(cfg)
+                    fcases.append({'ci': ci, 'dt': dt, 'val': val, 'v': v, 'lvl': lvl,
+                                   'obs': observe_factory(dt, val, v, lvl)})
+    prelude = C17M_PRELUDE % {'cfgs': cfg_terms, 'ec0': S.ec_term(EC_SETS[0])}
+    LF = [prelude, 'Definition fcases : list fcase := [']
+    LF.append(';\n'.join('(%d%%nat, %s, %s, %s, %d%%nat, (%d%%nat, %s, %s))' % (
+        c['ci'], coq_str(c['dt']), coq_str(c['val']), coq_opt(c['v'], coq_str), c['lvl'] or 0, c['obs'][0],
+        'true' if c['obs'][1] else 'false', coq_str(c['obs'][2])) for c in fcases))
+    LF.append('].')
+    LF.append('Eval vm_compute in ffailing 0 fcases.')
+    files.append(('c17f_%d' % os.getpid(), '\n'.join(LF) + '\n'))
+    index.append(None)
+    run.log('message level: implementation observed, %d case files' % len(files))
+    results = coq_eval_many(files, timeout=600)
+    evaluated = 0
+    for sh, (rc, out) in zip(index, results):
+        lists = parse_nat_lists(out)
+        if sh is None:      # the datatype_factory file
+            if rc != 0 or len(lists) != 1:
+                run.disagree('datatype_factory-under-defaults', why='case file did not evaluate', output=out[-1200:])
+                continue
+            evaluated += len(fcases)
+            for i in lists[0]:
+                c = fcases[i]
+                run.disagree('datatype_factory-under-defaults', config=list(MSG_CONFIGS[c['ci']]), datatype=c['dt'],
+                             value=c['val'], version=c['v'], level=c['lvl'], implementation=[str(x) for x in c['obs']])
+            continue
+        if rc != 0 or len(lists) != 1:
+            run.disagree('parse_message-under-defaults', why='case file did not evaluate', output=out[-1200:])
+            continue
+        evaluated += len(sh)
+        for i in lists[0]:
+            c = sh[i]
+            run.disagree('parse_message-under-defaults', config=list(MSG_CONFIGS[c['ci']]), level=c['lvl'],
+                         find_groups=c['fg'], text=c['text'], kind_of_text=[str(x) for x in c['desc']],
+                         implementation=[str(x)[:400] for x in c['obs']])
+    kinds = {}
+    for c in cases:
+        kinds[c['desc'][2]] = kinds.get(c['desc'][2], 0) + 1
+    run.log('message level: %d texts, %d parse_message calls + %d datatype_factory calls under %d hostile configurations, '
+            'model evaluated %d, header kinds %s' % (len(texts), oracle_evals, len(fcases), len(MSG_CONFIGS), evaluated, kinds))
+    return evaluated, oracle_evals, len(texts)
+# END message-level correspondence
+# ==========================================================================================
+
+
 def main(argv=None):
     run = Run('C17', argv)
     ok = run.build(['Properties/C17.vo'], gen=('params', 'tables'), obligation_files=['Properties/C17.v'])
@@ -209,6 +424,8 @@ def main(argv=None):
                 continue
             c = S.case_of(meta['text'], meta['v'], meta['lvl'], meta['ec'])
             cases.append(c)
+        msg_evaluated, msg_oracle, msg_texts = message_defaults_correspondence(run)
+        evaluations += msg_oracle
     finally:
         hl7apy.set_default_version(saved[0])
         hl7apy.set_default_validation_level(saved[1])
@@ -225,14 +442,20 @@ def main(argv=None):
                 'version + validate, datatype_factory incl. 250-character invalid values, constructors/assignment/'
                 'to_er7 with explicit delimiters, parse_field/parse_component, add_subcomponent, parse_message) run under '
                 '%d configurations of (default version, default level, default delimiter set); distinct = distinct calls; '
-                'elements created beforehand are re-observed under every configuration' % len(cfgs),
+                'elements created beforehand are re-observed under every configuration; message level: generated '
+                'messages with / without / with unsupported MSH-12, own delimiter sets, truncation character, level '
+                'given or omitted, both group modes, parsed under 3 hostile configurations and compared with '
+                'Model/ConfigMsg.api_parse_message (outcome, version used, tree shape, to_er7 text)' % len(cfgs),
         'samples': samples,
-        'traces_validated_against_impl': evaluated,
+        'traces_validated_against_impl': evaluated + msg_evaluated,
+        'message_level_texts': msg_texts,
+        'message_level_model_cases': msg_evaluated,
         'configurations': len(cfgs),
         'corpus_calls': len(corpus),
     }, assumptions=[
         'a parentless element encoded WITHOUT explicit delimiters reads the current default by design (not flagged)',
-        'message texts carry MSH-12, so the version is derived from the text',
+        'oracle corpus: message texts carry MSH-12, so the version is derived from the text; the message-level '
+        'correspondence also runs texts without MSH-12 (the default version is then read, by design)',
     ])
 
 
